@@ -398,3 +398,40 @@ func vh_C05_L7_initial_cumulative_point_simultaneous_open() { vh_C04_L1_simultan
 // C05.L9: a chunk that was dropped because its TSN lies outside the window is never marked
 // as received, so no SACK ever names it (= C01.L4).
 func vh_C05_L9_dropped_chunk_is_never_marked_received() { vh_C01_L4_duplicate_suppression() }
+
+// C05.L10: a gap filler accepted while the window is closed is reported like any other
+// accepted chunk (= C11.L2).
+func vh_C05_L10_gap_filler_at_zero_window_is_reported() { vh_C11_L2_credit_and_full_buffer() }
+
+// C05.L11: every received run is reported, however many there are and whatever the MTU. With
+// an MTU of 36, 100 or the default, 3, 6 or 20 single chunks arrive each one TSN apart from
+// the next (so each is a gap block of its own); the SACK emitted afterwards, decoded from the
+// wire, names every one of them (a SACK is never cut to fit a packet size: what it leaves
+// out the peer takes for lost).
+func vh_C05_L11_every_run_is_reported_whatever_the_mtu() {
+	a, _ := vNewAssocOpts(vAssocOpts{fixedTSN: true, mtu: []uint32{36, 100, 0}[vPick(3)]})
+	cum := a.peerLastTSN()
+	k := []int{3, 6, 20}[vPick(3)]
+	for i := 1; i <= k; i++ {
+		vassert(vDeliver(a, vDataChunk(a, cum+uint32(2*i), 4, true, 1)) == nil, "DATA ok")
+	}
+	var sack *chunkSelectiveAck
+	for _, raw := range vWriterWake(a) {
+		p := vDecode(raw)
+		for _, c := range p.chunks {
+			if s, ok := c.(*chunkSelectiveAck); ok {
+				sack = s
+			}
+		}
+	}
+	vassert(sack != nil, "a SACK is emitted")
+	if sack == nil {
+		return
+	}
+	vassert(sack.cumulativeTSNAck == cum, "the cumulative ack stays below the first hole")
+	vassert(len(sack.gapAckBlocks) == k, "one gap block per received run: every TSN accepted so far is reported")
+	for i, b := range sack.gapAckBlocks {
+		vassert(int(b.start) == 2*(i+1) && int(b.end) == 2*(i+1), "each block names exactly its run")
+	}
+	vcover("end")
+}
